@@ -241,7 +241,10 @@ def classify(res, q):
     for p in res['props']:
         desc = p['desc'] or ''
         st = p['status']
-        if desc.startswith('reach:'):
+        if desc.startswith('reach-opt:'):
+            if st == 'FAILURE':
+                reach_ok += 1
+        elif desc.startswith('reach:'):
             if st == 'FAILURE':
                 reach_ok += 1
             else:
